@@ -754,6 +754,21 @@ pub fn drive(seed: u64, episodes: usize, steps: usize, max_ref: usize, num_slots
                 emit(out, &ep, ev);
             }
         }
+        // when there is room, every other episode starts with one parent that has well over 64 children (a star
+        // inserted in one call): the random calls that follow then unlink, move and destroy inside a long child list
+        if max_ref >= 80 && epi % 2 == 1 {
+            let b = wide_builder(&w, &mut rng, lab, 70, uid_pool);
+            lab += 100;
+            let root1 = w.spec_ref(w.doms[0].as_ref().unwrap().root_ref());
+            let op = json!({"op": "insert", "d": 1, "p": root1, "b": b});
+            start_watchdog();
+            watch(out, &ep, &op);
+            let evs = w.exec(&op);
+            unwatch();
+            for ev in evs {
+                emit(out, &ep, ev);
+            }
+        }
         random_steps(&mut w, &mut rng, steps, uid_pool, &mut lab, &ep, out);
 
     }
